@@ -62,6 +62,8 @@ pub struct PlMon {
     /// interleaved on one slot in this execution.
     last_actor: Vec<Option<usize>>,
     pub interleaved_on_slot: bool,
+    /// Set by the TX actor while a send closure that is going to fail (error / partial) runs.
+    pub tx_send_failing: bool,
 }
 
 impl PlMon {
@@ -86,6 +88,7 @@ impl PlMon {
             next_token: 1,
             last_actor: vec![None; n],
             interleaved_on_slot: false,
+            tx_send_failing: false,
         }
     }
 
@@ -244,6 +247,10 @@ impl Monitor for PlMon {
                         self.holders[slot].retain(|h| !(h.actor == ev.actor && h.kind == HolderKind::TxClaim));
                     }
                     (ST_ABANDONED, ST_NONE) => {
+                        if self.tx_send_failing && self.holders[slot].iter().any(|h| h.actor == ev.actor && h.kind == HolderKind::TxClaim) {
+                            // a request given up while TX was inside, and that very transmission failed
+                            *self.transitions.entry("abandoned-freed-after-failed-send".into()).or_insert(0) += 1;
+                        }
                         self.holders[slot].retain(|h| !(h.actor == ev.actor && matches!(h.kind, HolderKind::TxClaim | HolderKind::RxClaim)));
                     }
                     _ => {}
